@@ -24,7 +24,16 @@ avars == <<asent, abytes, arecv, apre, apreb, arel, adisc>>
 AInit == /\ asent = <<>> /\ abytes = 0 /\ arecv = 0 /\ apre = 0 /\ apreb = 0
          /\ arel = FALSE /\ adisc = FALSE
 
-ASend(k, sz) == /\ k = Len(asent) + 1
+\* the guards (what the property demands of an event), separately: the trace spec uses them
+\* to record a rejected run and go on with the next one
+GSend(k, sz) == k = Len(asent) + 1
+GRecv(k, sz) == k = arecv + 1 /\ k <= Len(asent) /\ sz = asent[k]
+GDisc == Len(asent) > MaxCount \/ abytes > MaxBytes
+GEnd(alive) == /\ alive => arecv = Len(asent)
+               /\ ~alive => adisc
+               /\ (apre > MaxCount \/ apreb > MaxBytes) => adisc
+
+ASend(k, sz) == /\ GSend(k, sz)
                 /\ asent' = Append(asent, sz)
                 /\ abytes' = abytes + sz
                 /\ IF arel THEN UNCHANGED <<apre, apreb>>
@@ -34,19 +43,16 @@ ASend(k, sz) == /\ k = Len(asent) + 1
 ARelease == arel' = TRUE /\ UNCHANGED <<asent, abytes, arecv, apre, apreb, adisc>>
 
 \* exactly once, in order: the backend receives the next message of the client's sequence
-ARecv(k, sz) == /\ k = arecv + 1 /\ k <= Len(asent) /\ sz = asent[k]
+ARecv(k, sz) == /\ GRecv(k, sz)
                 /\ arecv' = k
                 /\ UNCHANGED <<asent, abytes, apre, apreb, arel, adisc>>
 
 \* a disconnect is legitimate only when a cap can have been exceeded
-ADisc == /\ (Len(asent) > MaxCount \/ abytes > MaxBytes)
+ADisc == /\ GDisc
          /\ adisc' = TRUE
          /\ UNCHANGED <<asent, abytes, arecv, apre, apreb, arel>>
 
 \* quiescence after a generous wait: a live connection got everything through; a cap
 \* exceeded while the backend was held back must have disconnected the player
-AEnd(alive) == /\ alive => arecv = Len(asent)
-               /\ ~alive => adisc
-               /\ (apre > MaxCount \/ apreb > MaxBytes) => adisc
-               /\ UNCHANGED avars
+AEnd(alive) == GEnd(alive) /\ UNCHANGED avars
 =============================================================================
